@@ -684,3 +684,173 @@ SPECS["C14"]["root_part"] = c14_root_part
 SPECS["C14"]["builds"].append(dict(module=".", pkgdir=".", harness=["root"], stubs=ROOT_STUBS, race=True))
 SPECS["C14"]["rule"] += (" Root part: a licenseclassifier.License loaded from an archive of 12 short licenses (written by the real ArchiveLicenses) is hit by 4-16 goroutines calling MultipleMatch/NearestMatch "
                          "(-race binary, 2/6 processes); results are compared with the same calls made alone.")
+
+
+def run_c19(ctx, spec):
+    import json
+    import random
+    import subprocess
+    tier = ctx["tier"]
+    scratch = ctx["scratch"]
+    t_build = driver.time.time()
+    cli = driver.build_prog(scratch, "v2", "./tools/identify_license", "identify_license")
+    cli_race = driver.build_prog(scratch, "v2", "./tools/identify_license", "identify_license.race", race=True)
+    hbin, bt = driver.build_test(scratch, "v2", ".", ["v2"], out="v2")
+    build_s = driver.time.time() - t_build
+    env = {"VERIF_WORKERS": "8", "VERIF_CASE_TIMEOUT": "600"}
+    only = ctx.get("only")
+    if only is not None:
+        env["VERIF_ONLY"] = str(only)
+        env["VERIF_WORKERS"] = "1"
+    ctx["gomaxprocs"] = 8
+    events, crashes, sigs = driver.run_sharded(ctx, hbin, "TestVerifC19Expect", os.path.join(driver.REPO, "v2"), 1, 3600, extra_env=env)
+    trees = []
+    for f in sorted(glob.glob(os.path.join(scratch, "c19", "t*.json"))):
+        tr = json.load(open(f))
+        for fl in tr["files"]:
+            fl["matches"] = fl.get("matches") or []
+        trees.append(tr)
+    rng = random.Random(int(ctx["seed"]) * 7919 + 19)
+    viol = []
+    samples = []
+    ninv = 0
+    nlines = 0
+    ntext = 0
+    race_log = os.path.join(scratch, "clirace")
+    line_re = re.compile(r"^(.*) (\S+) \(variant: (.*), confidence: (\S+), start: (\d+), end: (\d+)\)$")
+
+    def add(kind, tree, flags, detail):
+        viol.append({"ev": "case", "verdict": "violation", "kind": kind, "gen": "cli", "idx": int(os.path.basename(tree["dir"])[1:]),
+                     "detail": "identify_license %s on %s: %s" % (" ".join(flags), tree["dir"], detail), "params": {"flags": flags, "tree": tree["dir"]}})
+
+    for tree in trees:
+        nfiles = len(tree["files"])
+        combos = []
+        task_choices = [1, 2, 7, 1000]
+        for k in range(3 if tier == "quick" else 4):
+            headers = rng.random() < 0.5
+            mode = rng.choice(["plain", "json", "json+text", "json+text"])
+            tasks = task_choices[(k + rng.randrange(4)) % 4]
+            combos.append((headers, mode, tasks, False))
+        if nfiles >= 4:
+            combos.append((True, "plain", rng.choice([7, 1000]), True))  # the -race build on multi-file trees
+        base_out = None
+        for (headers, mode, tasks, use_race) in combos:
+            flags = ["-tasks", str(tasks)]
+            if headers:
+                flags.append("-headers")
+            jpath = None
+            if mode != "plain":
+                jpath = os.path.join(scratch, "c19", "out_%d.json" % ninv)
+                flags += ["-json", jpath]
+                if mode == "json+text":
+                    flags.append("-include_text")
+            # pass the directory, or (sometimes) the files one by one
+            args = [tree["dir"]] if rng.random() < 0.7 else [f["abs"] for f in tree["files"]]
+            envp = dict(os.environ)
+            if use_race:
+                envp["GORACE"] = "halt_on_error=0 log_path=%s" % race_log
+            try:
+                p = subprocess.run([cli_race if use_race else cli] + flags + args, stdout=subprocess.PIPE, stderr=subprocess.PIPE, timeout=1800, env=envp)
+            except subprocess.TimeoutExpired:
+                add("cli-timeout", tree, flags, "no result within 1800 s")
+                continue
+            ninv += 1
+            out = p.stdout.decode("utf-8", "replace")
+            got = {}
+            bad = None
+            for line in out.splitlines():
+                m = line_re.match(line)
+                if not m:
+                    bad = line
+                    continue
+                got.setdefault(m.group(1), []).append(line[len(m.group(1)) + 1:])
+                nlines += 1
+            want = {}
+            for f in tree["files"]:
+                ms = [m["line"] for m in f["matches"] if headers or not m["header"]]
+                if ms:
+                    want[f["abs"]] = ms
+            if bad is not None:
+                add("unparsable-output", tree, flags, "stdout line %r" % bad[:300])
+                continue
+            diff = None
+            for fn in sorted(set(got) | set(want)):
+                if sorted(got.get(fn, [])) != sorted(want.get(fn, [])):
+                    diff = "file %s: CLI printed %s, the library's Match gives %s" % (fn, sorted(got.get(fn, [])), sorted(want.get(fn, [])))
+                    break
+            if diff:
+                add("cli-differs-from-library", tree, flags, diff + "\nstderr tail: " + p.stderr.decode("utf-8", "replace")[-600:])
+                continue
+            # confidence order of the printed lines
+            confs = [float(line_re.match(l).group(4)) for l in out.splitlines()]
+            if any(confs[i] < confs[i + 1] for i in range(len(confs) - 1)):
+                add("output-not-sorted-by-confidence", tree, flags, "confidences %s" % confs[:20])
+                continue
+            printed = sum(len(v) for v in got.values())
+            if (p.returncode == 0) != (printed > 0):
+                add("exit-status", tree, flags, "exit status %d with %d printed match(es); stderr tail: %s" % (p.returncode, printed, p.stderr.decode("utf-8", "replace")[-600:]))
+                continue
+            if jpath and printed > 0:
+                try:
+                    jr = json.load(open(jpath))
+                except Exception as ex:
+                    add("json-missing", tree, flags, "JSON output not written/parsable: %s" % ex)
+                    continue
+                jgot = {}
+                for fc in jr:
+                    for c in fc["Classifications"]:
+                        jgot.setdefault(fc["Filepath"], []).append(c)
+                byabs = {f["abs"]: f for f in tree["files"]}
+                for fn, cls in jgot.items():
+                    exp = [m for m in byabs[fn]["matches"] if headers or not m["header"]] if fn in byabs else []
+                    if sorted((c["Name"], c["StartLine"], c["EndLine"], repr(float(c["Confidence"]))) for c in cls) != sorted((m["name"], m["start"], m["end"], repr(float(m["conf"]))) for m in exp):
+                        add("json-differs-from-library", tree, flags, "file %s: %s vs %s" % (fn, [(c["Name"], c["StartLine"], c["EndLine"]) for c in cls], [(m["name"], m["start"], m["end"]) for m in exp]))
+                        break
+                    if mode == "json+text":
+                        data = open(fn, "rb").read().decode("utf-8", "surrogateescape")
+                        flines = data.split("\n")
+                        for c in cls:
+                            want_text = "".join((flines[i - 1][:-1] if flines[i - 1].endswith("\r") else flines[i - 1]) + "\n" for i in range(c["StartLine"], c["EndLine"] + 1) if i - 1 < len(flines))
+                            got_text = c.get("Text", "")
+                            # JSON encoding replaces invalid UTF-8 by U+FFFD: compare after the same mapping
+                            wt = want_text.encode("utf-8", "surrogateescape").decode("utf-8", "replace")
+                            ntext += 1
+                            if got_text != wt:
+                                add("include-text-differs", tree, flags, "file %s lines %d-%d: Text has %d chars, the file's lines %d chars; first difference near %r vs %r" % (
+                                    fn, c["StartLine"], c["EndLine"], len(got_text), len(wt), got_text[:80], wt[:80]))
+                                break
+                if set(jgot) != set(want):
+                    add("json-differs-from-library", tree, flags, "files in JSON %s vs expected %s" % (sorted(jgot), sorted(want)))
+            elif jpath and printed == 0 and os.path.exists(jpath):
+                pass
+            # independence of -tasks: same multiset as the first invocation with the same -headers
+            if len(samples) < 2 and printed > 0:
+                samples.append({"flags": flags, "tree_files": nfiles, "stdout_head": out.splitlines()[:3], "exit": p.returncode})
+    nrep, distinct = parse_race_logs(race_log + ".*", "licenseclassifier/v2")
+    for d in distinct:
+        viol.append({"ev": "case", "verdict": "violation", "kind": "data-race", "gen": "cli-race", "idx": None,
+                     "detail": "%d report(s) from the -race build of identify_license; outermost module frames %s\n%s" % (d["count"], d["outer"], d["example"])})
+    cov = {"build_s": round(build_s, 1), "cli_invocations": ninv, "stdout_match_lines_compared": nlines, "include_text_blocks_compared": ntext,
+           "trees": len(trees), "race_reports": nrep}
+    ctx["expected_dones"] = 1
+    if only is None and ninv < {"quick": 30, "thorough": 800}[tier]:
+        viol.append({"ev": "case", "verdict": "violation", "kind": "harness", "gen": "cli", "detail": "only %d CLI invocations" % ninv})
+    return driver.summarize(ctx, events, crashes, sigs, spec, extra_cov=cov, extra_violations=viol, extra_samples=samples)
+
+
+SPECS["C19"] = dict(
+    run=run_c19, test="TestVerifC19Expect", level="exploration",
+    module="v2", pkgdir=".", harness=["v2"],
+    title="the identify_license CLI reports what the library finds",
+    technique="differential: CLI child process (built from the tree, also with -race) vs in-process Match on the same files",
+    rule=("tree = 1-60 generated files in nested directories (licensed, edited, several licenses, header in a comment, unlicensed, empty, notice only, no trailing newline, CRLF, a line of 70 000-200 000 bytes "
+          "before/inside/after the license, invalid UTF-8; every sixth tree has no license at all). For each tree the CLI built from the working tree is run 3-5 times with seeded flag combinations "
+          "{-headers} x {stdout only, -json, -json -include_text} x -tasks in {1,2,7,1000}, given the directory or the file list; multi-file trees are also run with the -race build (reports parsed). Oracle: per file, the "
+          "multiset of printed matches equals what Match returns in-process on assets.DefaultClassifier() for the file's bytes (Header matches only with -headers), lines are sorted by confidence, the JSON classifications "
+          "equal them, each Text equals lines StartLine..EndLine of the file, exit status 0 iff at least one match was printed. case = tree (expected results) ; CLI invocations are counted in coverage. "
+          "Non-trivial = every tree; distinct = tree."),
+    assumptions=list(V2_ASSUME) + ["the CLI's output format is parsed with a regular expression anchored at '(variant: ..., confidence: ..., start: ..., end: ...)'"],
+    floor_evals={"quick": 12, "thorough": 300},
+    floor_nontrivial={"quick": 12, "thorough": 300},
+)
